@@ -302,6 +302,14 @@ impl State {
     /// Handle a connection-level error.
     pub fn handle_error(&mut self, err: &proto::Error) {
         match self.inner {
+            // A reset that is only scheduled has not been written. The
+            // connection error takes its place, so that no RST_STREAM is sent
+            // for a stream the error has already ended (it may never have
+            // been opened on the wire).
+            Closed(Cause::ScheduledLibraryReset(..)) => {
+                tracing::trace!("handle_error; err={:?}", err);
+                self.inner = Closed(Cause::Error(err.clone()));
+            }
             Closed(..) => {}
             // The peer's message was already complete: keep that fact so the
             // application still sees a clean end of the received body.
